@@ -356,16 +356,22 @@ pub fn c17(a: &Args) {
         }
     }
 
-    // (3) raw glyph data that begins with a PSF magic, through the sniffing loaders (DCS font sequence)
+    // (3) raw glyph data that begins with a PSF magic, for every glyph height class (loaders that sniff file types must not
+    //     mistake raw glyph data of ANY size for a PSF file), through every carrier that takes the height
     if only.is_empty() || only == "magic" {
         let mut r = rng(seed, 18);
-        for (cls, prefix) in [("psf1-magic", vec![0x36u8, 0x04, 0x00, 0x10]), ("psf2-magic", vec![0x72, 0xb5, 0x4a, 0x86])] {
-            let h = 16u8;
-            let mut data: Vec<u8> = (0..256 * h as usize).map(|_| r.gen()).collect();
-            data[..prefix.len()].copy_from_slice(&prefix);
-            let f = BitFont::create_8("magic", 8, h, &data);
-            run_font(&mut out, &format!("dcs-{cls}"), cls, "dcs", &f, None, 5, 0);
-            n_font += 1;
+        for (cls, prefix) in [("psf1-magic", vec![0x36u8, 0x04, 0x00, 0x10]), ("psf2-magic", vec![0x72, 0xb5, 0x4a, 0x86]), ("psf1-magic-mode2", vec![0x36u8, 0x04, 0x02, 0x08])] {
+            for h in [1u8, 2, 7, 8, 9, 13, 14, 15, 16, 17, 19, 20, 31, 32] {
+                let mut data: Vec<u8> = (0..256 * h as usize).map(|_| r.gen()).collect();
+                let n = prefix.len().min(data.len());
+                data[..n].copy_from_slice(&prefix[..n]);
+                let f = BitFont::create_8("magic", 8, h, &data);
+                for carrier in ["dcs", "icy", "psf2", "u8"] {
+                    if !supports(carrier, h as i32, 256) { continue; }
+                    run_font(&mut out, &format!("{carrier}-{cls}-h{h}"), cls, carrier, &f, None, if carrier == "dcs" || carrier == "icy" { 5 } else { 0 }, h as u64);
+                    n_font += 1;
+                }
+            }
         }
     }
 
